@@ -36,13 +36,18 @@ def shards(tier, seed):
         out.append({"kind": "standard", "npt": g})
     for d in (1, 2):
         out.append({"kind": "adaptive", "d": d})
+    # sequences of three queries in different cells (partly filled table, known and new vertices mixed)
+    out.append({"kind": "adaptive-seq", "d": 2, "npt": [4, 3]})
+    out.append({"kind": "adaptive-seq", "d": 1, "npt": [5]})
+    if tier == "thorough":
+        out.append({"kind": "adaptive-seq", "d": 2, "npt": [4, 4]})
     return out
 
 
 def configure(cfg, tier):
     cfg.incremental_first = False
     cfg.query_timeout_ms = 20000 if tier == "quick" else 60000
-    cfg.max_paths = 400
+    cfg.max_paths = 1500
 
 
 def _multilinear(coefs, d):
@@ -171,7 +176,45 @@ def h_adaptive(ctx, d, case_holder=None):
         ctx.sample({"adaptive dim": d, "path": ctx.idx})
 
 
+def h_adaptive_seq(ctx, d, npt, case_holder=None):
+    from porepy.utils.interpolation_tables import AdaptiveInterpolationTable
+
+    dx = np.array([0.5, 0.25][:d])
+    base = np.array([-0.5, 0.25][:d])
+    low = base.copy()
+    high = base + dx * (np.array(npt) - 1)
+    coefs = ctx.reals("c", 2 ** d, -2, 2)
+    f, _ = _multilinear(coefs.tolist(), d)
+    xs = []
+    for q in range(3):
+        t = ctx.reals(f"t{q}", d, 0.015625, 0.984375)
+        xs.append((low + t * (high - low)).reshape((-1, 1)))
+    inputs = {"d": d, "npt": npt, "coefs": coefs, "xs": [x.ravel() for x in xs]}
+
+    def case(conc):
+        c = _json(conc(inputs))
+        c["kind"] = "adaptive-seq"
+        return c
+
+    if case_holder is not None:
+        case_holder["case"] = case
+    ada = AdaptiveInterpolationTable(dx, base_point=base, function=f, dim=1)
+    for q, x in enumerate(xs):
+        v = ada.interpolate(x)
+        ctx.check("adaptive-sequence-exact", lift(v[0, 0]) == lift(f(*[x[i, 0] for i in range(d)])), case)
+    m = ctx.reach("end")
+    if m is not None and ctx.idx % 5 == 0:
+        ctx.validate_replay("float-run", case, model=m)
+    if ctx.idx < 2:
+        ctx.sample({"adaptive sequence": npt, "path": ctx.idx})
+
+
 def run_shard(ex, shard):
+    if shard["kind"] == "adaptive-seq":
+        ex.run(lambda ctx, d, npt: _guard(ctx, lambda c, *a, case_holder=None: h_adaptive_seq(
+            c, d, npt, case_holder=case_holder), "adaptive-table", {}),
+            label=f"adaseq{shard['npt']}", args=(shard["d"], shard["npt"]))
+        return
     if shard["kind"] == "standard":
         ex.run(lambda ctx, npt: _guard(ctx, h_standard, "standard-table", {}, npt),
                label=f"std{shard['npt']}", args=(shard["npt"],))
@@ -198,7 +241,7 @@ def _replay(case):
     from porepy.utils.interpolation_tables import AdaptiveInterpolationTable, InterpolationTable
 
     coefs = [float(c) for c in case["coefs"]]
-    x = np.array(case["x"], dtype=float).reshape((-1, 1))
+    x = np.array(case.get("x", [0.0]), dtype=float).reshape((-1, 1))
     if case["kind"] == "standard":
         npt = case["npt"]
         d = len(npt)
@@ -222,6 +265,16 @@ def _replay(case):
     d = case["d"]
     dx = np.array([0.5, 0.25][:d])
     base = np.array([-0.5, 0.25][:d])
+    if case["kind"] == "adaptive-seq":
+        f, _ = _multilinear(coefs, d)
+        ada = AdaptiveInterpolationTable(dx, base_point=base, function=f, dim=1)
+        for xq in case["xs"]:
+            xq = np.array(xq, dtype=float).reshape((-1, 1))
+            v = ada.interpolate(xq)[0, 0]
+            exact = f(*[xq[i, 0] for i in range(d)])
+            if abs(v - exact) > 1e-8 * (1 + abs(exact)):
+                return True, f"adaptive table after earlier queries: interpolate({xq.ravel().tolist()}) = {v}, exact {exact}"
+        return False, "exact"
     npt = [3, 3][:d]
     low, high = base.copy(), base + dx * (np.array(npt) - 1)
     f, _ = _multilinear(coefs, d)
